@@ -72,6 +72,33 @@ def extra_catalog():
         out["FlatPack.Toy"] = lambda: E.FlatPack(generator=FPToy())
     except Exception:  # noqa: BLE001
         pass
+    # the library's own wrappers are environments too ("all environments"): the auto-resetting ones with the observation
+    # of the true successor in the extras, the batched one behind a thin user wrapper that presents a batch of three lanes as
+    # one environment (reset splits the key, step plays the same action in every lane)
+    try:
+        from jumanji.wrappers import AutoResetWrapper, VmapAutoResetWrapper, VmapWrapper, Wrapper
+
+        def lanes(env):
+            import jax
+            import jax.numpy as jnp
+
+            class Lanes(Wrapper):
+                def reset(self, key):
+                    return self._env.reset(jax.random.split(key, 3))
+
+                def step(self, state, action):
+                    return self._env.step(state, jnp.stack([action] * 3))
+
+            return Lanes(env)
+
+        small = lambda: E.Snake(num_rows=3, num_cols=4, time_limit=3)  # noqa: E731
+        out["Snake.AutoResetNextObs"] = lambda: AutoResetWrapper(small(), next_obs_in_extras=True)
+        out["Snake.AutoReset"] = lambda: AutoResetWrapper(small())
+        out["Snake.VmapAutoResetNextObs"] = lambda: lanes(VmapAutoResetWrapper(small(), next_obs_in_extras=True))
+        out["Snake.VmapAutoReset"] = lambda: lanes(VmapAutoResetWrapper(small()))
+        out["Snake.Vmap"] = lambda: lanes(VmapWrapper(small()))
+    except Exception:  # noqa: BLE001
+        pass
     # "same configuration" includes sharing constructor arguments: build the generator object (or the numpy
     # database handed to it) ONCE and give it to every instance; a generator that mutates its arguments or caches
     # per-call results then makes fresh instances disagree
